@@ -60,6 +60,21 @@ def strictly_equal(obj1: object, obj2: object) -> bool:
     return obj1 == obj2 and type(obj1) is type(obj2)
 
 
+def value_space_equal(obj1: object, obj2: object) -> bool:
+    """
+    Checks if two decoded values are equal in the XSD value space: integers and
+    decimals belong to the same primitive type, booleans are not numbers.
+    """
+    if obj1 != obj2:
+        return False
+    elif type(obj1) is type(obj2):
+        if isinstance(obj1, list) and isinstance(obj2, list):
+            return all(value_space_equal(v1, v2) for v1, v2 in zip(obj1, obj2))
+        return True
+    return all(isinstance(v, (int, Decimal)) and not isinstance(v, bool)
+               for v in (obj1, obj2))
+
+
 def raw_encode_value(value: DecodedValueType) -> Optional[str]:
     """Encodes a simple value to XML."""
     if isinstance(value, bool):
